@@ -124,9 +124,21 @@ pub fn exec(case: &Value) -> Vec<Value> {
 pub fn gen(seed: u64, n: usize) -> Vec<Value> {
     let mut rng = ChaCha8Rng::seed_from_u64(seed);
     (0..n)
-        .map(|_| {
+        .map(|i| {
             let strat = ["sequential", "interleaved", "weighted"][rng.random_range(0..3)];
-            let k = rng.random_range(1..=6);
+            // three runs have more sources than 8 bits can number
+            let k = if i % 500 == 11 { rng.random_range(257..=300) } else { rng.random_range(1..=6) };
+            // very unequal sources (one holds less than a hundredth of the items): weights that round to nothing
+            if i % 100 == 7 {
+                let mut lens: Vec<usize> = vec![rng.random_range(1..=2), rng.random_range(101..=320)];
+                if rng.random_bool(0.5) { lens.reverse(); }
+                if rng.random_bool(0.3) { lens.push(rng.random_range(1..=3)); }
+                return json!({"lens": lens, "strategy": "weighted", "seed": rng.random::<u32>(), "errs": []});
+            }
+            if k > 6 {
+                let lens: Vec<usize> = (0..k).map(|_| rng.random_range(if strat == "weighted" { 1 } else { 0 }..=2)).collect();
+                return json!({"lens": lens, "strategy": strat, "seed": rng.random::<u32>(), "errs": []});
+            }
             let lo = if strat == "weighted" { 1 } else { 0 };
             let lens: Vec<usize> = (0..k).map(|_| rng.random_range(lo..=9)).collect();
             let mut errs: Vec<Value> = vec![];
